@@ -1342,6 +1342,7 @@ def run(ck: Check) -> None:
     c05_inherit.run_batch(ck, icamps, c05_inherit.core_block(quick=quick) + c05_inherit.random_groups(ck, 150 if quick else 2500))
     # name capture: a member named like a name that a LATER member's default expression reads in the class body
     c05_capture.campaign(ck, quick)
+    c05_capture.campaign_reads(ck, 600 if quick else 6000)
     ck.notes["space"] = {
         "capture_block": "member named like a builtin (list, dict, set, str, int) / the Field / field helper / the enum, the referenced class, the class itself x kind (TypedDict once: nothing is evaluated there) in front of members with defaults of every written form (empty / non-empty list and dict, constrained string, aliased member, enum member, model-typed, integer, none); quick: options off + one drawn option; thorough: x capturer form (optional / string default / required) x before / after x each option",
         "base_block": "kind x dialect/null-source x required x default class x type x constraint x 7 options (own required list, plain name): 105600 valid vectors",
